@@ -42,10 +42,11 @@ MODEL = "Reject"
 SHARD = 250
 CASE_TIMEOUT = 10
 SKIPPED_FN = "case_unsupported"
-RULE = ("cases: edit = a valid seed recipe (16 built-in seeds covering every construct + repository "
-        "examples/tests that run offline) with ONE structural edit (node replaced by each of ~30 values "
-        "of other shapes; key deleted / renamed / duplicated over a 27-key alphabet incl. non-string "
-        "keys; list element deleted; two values swapped), exhaustive per seed in thorough, sampled in "
+RULE = ("cases: edit = a valid seed recipe (16 built-in seeds covering every construct, 11 tiny seeds one "
+        "per declaration kind, ~90 repository examples/tests that run offline) with ONE structural edit "
+        "(node replaced by each of ~40 values of other shapes; key deleted / renamed / duplicated over a "
+        "28-key alphabet incl. non-string keys; list element deleted / duplicated; two values swapped), "
+        "tiny seeds exhaustive in both tiers, other seeds exhaustive in thorough (budget 105k edits) and sampled in "
         "quick; doc = random YAML trees depth<=4 over the recipe vocabulary; text = raw texts (aliases, "
         "cycles, tags, merge keys, unloadable text); fault = recipes with one injected run-time "
         "exception (plugin call, attribute lookup, count conversion, for_each, write_row; top level / "
@@ -387,6 +388,24 @@ BUILTIN = {
 """,
 }
 
+# tiny seeds, one per kind of declaration: every single edit of these runs in BOTH tiers, so that every
+# keyword position meets every replacement value on every run
+MINI = {
+ "m_include": "- include_file: examples/company.yml\n",
+ "m_plugin": "- plugin: snowfakery.standard_plugins.Math\n",
+ "m_macro": "- macro: m\n  fields:\n    a: 1\n- object: A\n  include: m\n",
+ "m_option": "- option: o\n  default: 1\n",
+ "m_var": "- var: v\n  value: 1\n",
+ "m_version": "- snowfakery_version: 2\n",
+ "m_object": "- object: A\n  count: 1\n  nickname: a\n  just_once: false\n  update_key: x\n  fields:\n    x: 1\n"
+             "  friends:\n  - object: B\n    just_once: false\n",
+ "m_nested": "- object: A\n  fields:\n    c:\n    - object: C\n      just_once: false\n",
+ "m_foreach": "- plugin: snowfakery.standard_plugins.datasets.Dataset\n- object: R\n  for_each:\n    var: r\n    value:\n"
+              "      Dataset.iterate:\n        dataset: examples/datasets/addresses.csv\n",
+ "m_randref": "- object: A\n- object: B\n  fields:\n    r:\n      random_reference: A\n    s:\n      random_reference:\n        to: A\n",
+ "m_call": "- object: A\n  fields:\n    n:\n      random_number:\n        min: 1\n        max: 2\n",
+}
+
 _SEEDS = None
 
 
@@ -397,7 +416,7 @@ def seeds():
     if _SEEDS is not None:
         return _SEEDS
     out = {}
-    for name, text in BUILTIN.items():
+    for name, text in list(BUILTIN.items()) + list(MINI.items()):
         t = from_py(yaml.safe_load(text))
         out[name] = {"tree": t, "base": None, "nodes": node_count(t)}
     if SEEDS_FILE.exists():
@@ -720,12 +739,14 @@ def generate(rng, tier):
                         continue
                     cases.append({"kind": "fault", "site": site, "depth": dep, "exc": exc,
                                   "nth": rng.choice([1, 1, 2]) if site == "write_row" else 0})
-    n_arb = 350 if tier == "quick" else 12000
+    n_arb = 300 if tier == "quick" else 12000
     for _ in range(n_arb):
         cases.append({"kind": "doc", "tree": arb_tree(rng), "base": None, "label": "arb"})
-    names = sorted(sd, key=lambda n: (not n.startswith("b_"), sd[n]["nodes"], n))
+    for n in sorted(MINI):
+        cases.extend({"kind": "edit", "seed": n, "edit": d} for d in edit_descriptors(sd[n]["tree"]))
+    names = sorted((n for n in sd if not n.startswith("m_")), key=lambda n: (not n.startswith("b_"), sd[n]["nodes"], n))
     if tier == "quick":
-        budget = 1150
+        budget = 900
         descs = {n: edit_descriptors(sd[n]["tree"]) for n in names}
         builtin = [n for n in names if n.startswith("b_")]
         files = [n for n in names if not n.startswith("b_")]
@@ -740,7 +761,7 @@ def generate(rng, tier):
             d = rng.choice(descs[n]) if i % 2 == 0 else rng.choice(byop[n][rng.choice(sorted(byop[n]))])
             cases.append({"kind": "edit", "seed": n, "edit": d})
     else:
-        budget = 75000
+        budget = 105000
         used = 0
         for n in names:
             ds = edit_descriptors(sd[n]["tree"])
@@ -879,10 +900,6 @@ def _environment(py, base):
 
 
 def run_impl(case):
-    from snowfakery.data_generator import generate as sf_generate
-    from snowfakery.output_streams import OutputStream
-    from snowfakery.data_gen_exceptions import DataGenError
-    from snowfakery import data_generator_runtime as rt
     text, base = materialise(case)
     if text is None:
         return {"skip": "seed unavailable"}
@@ -1222,7 +1239,9 @@ def stats(cases, obss):
         if c["kind"] == "edit" and c.get("edit"):
             ops[c["edit"][1]] += 1
     sd = seeds()
-    return {"kinds": dict(kinds), "outcome/phase": dict(outc), "crash_sites": dict(crash), "reject_classes": dict(dge),
+    per_seed = Counter(c["seed"] for c in cases if c["kind"] == "edit" and c.get("edit"))
+    exhaustive = sorted(n for n, k in per_seed.items() if n in sd and k >= len(edit_descriptors(sd[n]["tree"])))
+    return {"seeds_enumerated_exhaustively": len(exhaustive), "kinds": dict(kinds), "outcome/phase": dict(outc), "crash_sites": dict(crash), "reject_classes": dict(dge),
             "reject_location": dict(lines), "runtime_reject_rows_before": dict(rows_before_dge),
             "edit_ops": dict(ops), "seeds": len(sd), "seed_nodes": sum(s["nodes"] for s in sd.values())}
 
